@@ -24,11 +24,12 @@ COMPLETE destination buffer ("same writes": the buffer equals the specified one 
 keeps its length, i.e. nothing outside is touched).  Every theorem is followed by an `example`
 instantiating it on a non-trivial value.
 
-Partial (named `…_partial`, full statement in the comment next to it):
-* (no longer partial: the loop of the code — `wfn`, mirror of `wfnmatch` — is proved sound AND
-  complete: `fnmatch_code_sound_complete` for the flag sets without FNM_PERIOD against `Matches`,
-  `fnmatch_period_sound_complete` for ALL flag sets against the position-aware `MatchesP`.)
-* (no longer partial: `pton6_spec` and `pton4_spec` characterise the complete accepted grammars.)
+Nothing is `…_partial` any more:
+* fnmatch: the loop of the code (`wfn`, mirror of `wfnmatch`) is proved sound AND complete —
+  `fnmatch_code_sound_complete` (flag sets without FNM_PERIOD, against `Matches`) and
+  `fnmatch_period_sound_complete` (ALL flag sets, against the position-aware `MatchesP`); bracket
+  expressions via `match_class_spec`; no recursion budget (`fnmatch_no_budget`);
+* `pton6_spec` and `pton4_spec` characterise the complete accepted grammars.
 -/
 namespace UsualProps.C14
 open Usual.C14 UsualProofs.C14
@@ -523,6 +524,25 @@ example : Decodes utf8Mbr [97, 0xc3, 0xa9] [(1, 97), (2, 0xe9)] :=
   .cons _ 1 97 _ (by decide) (by decide) (by decide) (by decide)
     (.cons _ 2 0xe9 _ (by decide) (by decide) (by decide) (by decide) .nil)
 
+/-- `mbsnrtowcs` with room in `dst`, every way the scan can end (`DecodesTo`): input used up →
+    the count and `*src` just past the `srclen` bytes; NUL character → the count without the NUL,
+    the terminating 0 stored, `*src = NULL`; invalid or incomplete sequence → (size_t)-1 and `*src`
+    AT the offending sequence; always exactly the decoded codes at the front of `dst`, nothing else -/
+theorem mbsnrtowcs_stop_spec (mbr : Bytes → MbRes) (src : Bytes) (srclen : Nat) (d : List Nat)
+    (cs : List (Nat × Nat)) (st : MbStop) (rem : Bytes) (hs : srclen ≤ src.length)
+    (hd : DecodesTo mbr (src.take srclen) cs st rem) (hfit : cs.length < d.length) :
+    mbsnrtowcs mbr src srclen (some d) =
+      match st with
+      | .endOfInput => ⟨some cs.length, some srclen, cs.map (·.2) ++ d.drop cs.length⟩
+      | .nul => ⟨some cs.length, none, cs.map (·.2) ++ 0 :: d.drop (cs.length + 1)⟩
+      | .bad => ⟨none, some (srclen - rem.length), cs.map (·.2) ++ d.drop cs.length⟩ :=
+  mbsnrtowcs_stop mbr src srclen d cs st rem hs hd hfit
+
+example : DecodesTo utf8Mbr [97, 0xff, 98] [(1, 97)] .bad [0xff, 98] ∧
+    mbsnrtowcs utf8Mbr [97, 0xff, 98] 3 (some [7, 7, 7]) = ⟨none, some 1, [97, 7, 7]⟩ := by
+  refine ⟨?_, by decide⟩
+  exact .cons _ 1 97 _ _ _ (by decide) (by decide) (by decide) (by decide) (.invalid _ (by decide) (by decide))
+
 /-- the unrepaired `mbsnrtowcs` assigned `*src` with a NULL destination -/
 theorem mbsnrtowcs_unrepaired_violates :
     mbsnrtowcsOldSrcp utf8Mbr [97, 98] 2 = some 2 ∧ (mbsnrtowcs utf8Mbr [97, 98] 2 none).srcp = some 0 := by
@@ -648,6 +668,19 @@ theorem fnmatch_code_sound_complete (fl : FnFlags) (hper : fl.period = false) (p
 
 example : wfnmatch (FnFlags.ofNat 1) (bytesOf "*x/[!b]*c") (bytesOf "axx/acac") = 0 ∧
     wfnmatch (FnFlags.ofNat 1) (bytesOf "*x/[!b]*c") (bytesOf "ax/x/ac") = 1 := by decide
+
+/-- NO RECURSION BUDGET: `wfnmatch` is iterative (one remembered retry point, no recursion, no
+    depth limit), so `FNM_NOMATCH` is never a resource verdict.  In the model the loop gets the fuel
+    `(|pat|+2)·(|str|+2)+8`; for EVERY pattern and subject, however long or star-laden, it ends within
+    that fuel with 0 or 1 (the "out of fuel" value 2 is unreachable), and the tokeniser never runs
+    out of its fuel either (more fuel gives the same tokens). -/
+theorem fnmatch_no_budget (fl : FnFlags) (pat str : List Nat) (hs : ∀ c ∈ str, c ≠ 0) :
+    (wfnmatch fl pat str = 0 ∨ wfnmatch fl pat str = 1) ∧
+    (∀ f, pat.length < f → tokenize fl f pat = tokenize fl (pat.length + 1) pat) :=
+  ⟨wfnmatch_01 fl pat str hs, fun f hf => tokenize_fuel fl pat f hf⟩
+
+example : wfnmatch (FnFlags.ofNat 0) (bytesOf "*a*a*a*a*a*a*a*a*b") (bytesOf "aaaaaaaaaaaaaaaaaaaaaaaa") = 1 := by
+  decide
 
 /-- FNM_PERIOD INCLUDED.  `MatchesP` is the position-aware declarative semantics for every flag
     set: as `Matches`, but (1) a wildcard (`?`, bracket, `*`) never consumes a LEADING period under
